@@ -9,6 +9,7 @@ def run(tier):
     rp = replay.Replay("harness.modes:c11")
     for sr in ("addmul", "logaddexp"):
         rp.run_lens("semiring_" + sr, cfg="adjoint_" + sr, limit=LIMIT[tier])
+        rp.run_lens("adjsubs_" + sr, limit=LIMIT[tier])
     out.add_replay(rp, "adjoint")
     out.coverage = check.replay_coverage(
         rp, "every sum-product expression of the (add,mul) and (logaddexp,add) semiring lenses whose tensor leaves are "
